@@ -161,6 +161,32 @@ def gmd(U: np.ndarray,
     return Q, R, P
 
 
+def _eig_of_symmetric_or_general(
+        A: np.ndarray) -> Tuple[np.ndarray, np.ndarray]:
+    """
+    Eigenvalues and eigenvectors of `A`.
+
+    If `A` is a complex hermitian matrix (what `peig` and `leig` get from
+    the IA algorithms) `np.linalg.eigh` is used, so that the eigenvectors are
+    orthonormal even when there are repeated eigenvalues (`np.linalg.eig`
+    returns an arbitrary, non orthogonal, basis of such an eigenspace). The
+    eigenvectors are scaled as `np.linalg.eig` does it (unit norm, largest
+    component real and positive).
+    """
+    A = np.asarray(A)
+    if (np.iscomplexobj(A) and A.ndim == 2 and A.shape[0] == A.shape[1]
+            and A.size > 0):
+        A_H = A.conj().T
+        if np.allclose(A, A_H, rtol=1e-10,
+                       atol=1e-12 * (1.0 + np.abs(A).max())):
+            D, V = np.linalg.eigh((A + A_H) / 2.0)
+            largest = V[np.argmax(np.abs(V), axis=0), np.arange(V.shape[1])]
+            V = V * (largest.conj() / np.abs(largest))
+            return D.astype(complex), V
+    D, V = np.linalg.eig(A)
+    return D, V
+
+
 def peig(A: np.ndarray, n: int) -> Tuple[np.ndarray, np.ndarray]:
     """
     Returns a matrix whose columns are the `n` dominant eigenvectors of
@@ -201,7 +227,7 @@ def peig(A: np.ndarray, n: int) -> Tuple[np.ndarray, np.ndarray]:
         raise ValueError("`n` must be lower then the number of columns "
                          "in `A`")
 
-    [D, V] = np.linalg.eig(A)
+    [D, V] = _eig_of_symmetric_or_general(A)
     indexes = np.argsort(D.real)
     indexes = indexes[::-1]
     V = V[:, indexes[0:n]]
@@ -250,7 +276,7 @@ def leig(A: np.ndarray, n: int) -> Tuple[np.ndarray, np.ndarray]:
         raise ValueError("`n` must be lower then the number of columns "
                          "in `A`")
 
-    [D, V] = np.linalg.eig(A)
+    [D, V] = _eig_of_symmetric_or_general(A)
     indexes = np.argsort(D.real)
     V = V[:, indexes[0:n]]
     D = D[indexes[0:n]]
